@@ -1,12 +1,19 @@
 /-! Prototype model of epydemic.gf (FunctionGF/DiscreteGF, SumGF, ProductGF) over Rat. -/
 namespace GF
 
+/-- `fn f n`: a `FunctionGF` with coefficient function `f` and `_maxTerm = n` (the largest term `evaluate` adds up) -/
 inductive G where
-  | fn (f : Nat → Rat)
+  | fn (f : Nat → Rat) (n : Nat)
   | sum (a b : G)
   | prod (a b : G)
 
 def listCoeff (cs : List Rat) : Nat → Rat := fun i => cs.getD i 0
+
+/-- `DiscreteGF(coefficients=cs)`: the wrapper function, and `len(cs)` as largest term -/
+def leaf (cs : List Rat) : G := .fn (listCoeff cs) cs.length
+
+/-- `DiscreteGF(f=f)`: no largest term given, 300 -/
+def leafFn (f : Nat → Rat) : G := .fn f 300
 
 /-- ProductGF.getCoefficient's own enumeration: pairs a ≤ b with a + b = i, then the mirrored ones -/
 def pairs (i : Nat) : List (Nat × Nat) :=
@@ -15,17 +22,17 @@ def pairs (i : Nat) : List (Nat × Nat) :=
   forwards ++ backwards
 
 def coeff : G → Nat → Rat
-  | .fn f, i => f i
+  | .fn f _, i => f i
   | .sum a b, i => coeff a i + coeff b i
   | .prod a b, i => (pairs i).foldl (fun c p => c + coeff a p.1 * coeff b p.2) 0
 
 def scale (c : Rat) : G → G
-  | .fn f => .fn (fun i => c * f i)
+  | .fn f n => .fn (fun i => c * f i) n
   | .sum a b => .sum (scale c a) (scale c b)
   | .prod a b => .prod (scale c a) b
 
 def G.size : G → Nat
-  | .fn _ => 1
+  | .fn _ _ => 1
   | .sum a b => a.size + b.size + 1
   | .prod a b => a.size + b.size + 1
 
@@ -34,7 +41,7 @@ def dfn (f : Nat → Rat) (order : Nat) : Nat → Rat := fun i =>
 
 /-- `derivative(order)` -/
 def dx : Nat → G → G
-  | k, .fn f => .fn (dfn f k)
+  | k, .fn f n => .fn (dfn f k) n
   | k, .sum a b => .sum (dx k a) (dx k b)
   | 0, .prod a b => .prod a b
   | k+1, .prod a b => dx k (.sum (.prod (dx 1 a) b) (.prod a (dx 1 b)))
@@ -54,7 +61,7 @@ decreasing_by
 def pow (x : Rat) : Nat → Rat | 0 => 1 | n+1 => pow x n * x
 
 def eval : G → Rat → Rat
-  | .fn f, x => (List.range 301).foldl (fun v i => v + f i * pow x i) 0
+  | .fn f n, x => (List.range (n + 1)).foldl (fun v i => v + f i * pow x i) 0
   | .sum a b, x => eval a x + eval b x
   | .prod a b, x => eval a x * eval b x
 
